@@ -87,8 +87,13 @@ def _tree_key(repo, g, n, tier, names):
     """content hash of everything a group run depends on: the repository sources, the harness files, this runner"""
     import hashlib
     h = hashlib.sha256()
-    roots = [os.path.join(repo, "src"), os.path.join(VERIF, "kani")]
-    files = [os.path.join(repo, "Cargo.toml"), os.path.join(repo, "Cargo.lock"), os.path.abspath(__file__)]
+    roots = [os.path.join(repo, "src")]
+    files = [os.path.join(repo, "Cargo.toml"), os.path.join(repo, "Cargo.lock")]
+    # the group's own harness file plus the helper files every group may include
+    kd = os.path.join(VERIF, "kani")
+    for f in sorted(os.listdir(kd)):
+        if f in ("kit.rs", "list.rs", "heap.rs") or f.startswith(g.replace("_shared", "")):
+            files.append(os.path.join(kd, f))
     for r in roots:
         for d, _, fs in sorted(os.walk(r)):
             for f in sorted(fs):
@@ -130,7 +135,7 @@ def run_groups(prop, groups, tier, workdir, only_harness=None):
         tdir = os.path.join(workdir if alt else os.path.join(vxlib.WORK, "kani"), "target-%s-n%s" % (g, n))
         env = dict(os.environ, CARGO_NET_OFFLINE="true", VERIF_KANI_N=str(n), CARGO_TERM_COLOR="never")
         env.pop("RUSTUP_TOOLCHAIN", None)
-        jobs = min(len(hs), int(os.environ.get("VERIF_KANI_JOBS", "12")))
+        jobs = min(len(hs), int(os.environ.get("VERIF_KANI_JOBS", "14")))
         extra = ["--target-dir", tdir, "--output-format", "terse", "--exact", "-j", str(jobs),
                  "--default-unwind", str(n + G.get("unwind_extra", 3))]
         for h in hs:
